@@ -208,6 +208,13 @@ def step(s: Store, op: dict, log: list):
             else:
                 x.set_dtype(op["dtype"])
             return "ok"
+        if name == "set_adaptive":
+            x = s.get(op["h"])
+            if op.get("axis") is not None:      # adaptivity of one axis, through its (public) binning object
+                x.binnings[op["axis"]].set_adaptive(bool(op.get("value", True)))
+            else:
+                x.set_adaptive(bool(op.get("value", True)))
+            return "ok"
         if name == "copy":
             s.set(op["out"], s.get(op["h"]).copy(include_frequencies=op.get("with_freq", True))); return "ok"
         if name == "invalid":
